@@ -477,9 +477,43 @@ class ObjInterp(Interp):
 # entry point used by the checks
 # ---------------------------------------------------------------------------
 
+class ShapeMismatch(Exception):
+    """the output layer handles the exemplars of one word class in structurally different ways"""
+
+
 def format_output(ctx, parser_output, output_mode="sql", group_by_type=False):
-    """abstractly evaluate Output(parser_output=..., output_mode=..., group_by_type=...).format() on (lock-step) parse results.
-    Raises PyRaise / Raised when the analysed code raises, LexUnknown / NonUniform when it leaves the interpreted subset."""
+    """lock-step evaluation; when the control flow of the output layer depends on a feature in which the exemplars of a class
+    differ, evaluate once per exemplar and zip the results (ShapeMismatch when they cannot be zipped)"""
+    try:
+        return _format_output(ctx, parser_output, output_mode, group_by_type)
+    except (NonUniform, LexUnknown) as first:
+        from .deriv import _leaves, _project, _zip, _ShapeMismatch
+        width = None
+        for v in _leaves(parser_output):
+            width = len(v.ex)
+            break
+        if width is None:
+            raise
+        results, errors = [], []
+        for i in range(width):
+            try:
+                results.append(_format_output(ctx, [_project(copy.deepcopy(x), i) for x in parser_output], output_mode, group_by_type))
+                errors.append(None)
+            except PyRaise as pr:
+                results.append(None)
+                errors.append(pr)
+        if all(errors):
+            raise errors[0]
+        if any(errors):
+            bad = [k for k, e in enumerate(errors) if e][0]
+            raise ShapeMismatch(f"exemplar #{bad} of the word classes makes the output layer raise {errors[bad]} while others do not ({first})")
+        try:
+            return _zip(results)
+        except _ShapeMismatch as sm:
+            raise ShapeMismatch(f"{sm} ({first})")
+
+
+def _format_output(ctx, parser_output, output_mode="sql", group_by_type=False):
     m = ctx.model
     dc = ctx._get("dcmodel", lambda: DCModel(m))
     it = ObjInterp(m, ctx.grammar.tokens_ns, dc)
